@@ -3,6 +3,7 @@ import json
 
 from . import api as A
 from . import common as C
+from . import links as L
 from . import p_C05 as G
 
 PID = "C06"
@@ -73,6 +74,55 @@ def oracle(case, resps):
     return None
 
 
+# ---------------------------------------------------------------- treatment of traffic: a rejected toxic update on a live connection
+BAD_BODIES = {"latency": ['{"attributes": {"latency": "soon"}}', '{"toxicity": 1, "attributes": {"jitter": {}}}', '{"attributes": {"latency": 7, "jitter": "x"}}'],
+              "timeout": ['{"attributes": {"timeout": "soon"}}', '{"toxicity": 1, "attributes": {"timeout": []}}'],
+              "slow_close": ['{"attributes": {"delay": "x"}}'],
+              "bandwidth": ['{"attributes": {"rate": "fast"}}']}
+
+
+def traffic_cases(ctx, proof):
+    """links whose only toxic holds data or a deadline when an update with a malformed body arrives: the request is answered with an
+    error (checked) and the connection must be treated exactly as if the request had never been made - the same case without the
+    operation is run alongside and the two receivers' observations must be equal"""
+    rng = C.Rng(ctx.seed).fork("C06traffic")
+    n = (24 if ctx.tier == "quick" else 800) * (1 if proof["build_ok"] else 4)
+    pairs = []
+    for i in range(n):
+        ty = rng.choice(["latency", "latency", "timeout", "slow_close", "bandwidth"])
+        D = rng.choice([300, 2000, 4000])
+        tx = {"latency": L.tx("latency", name="x", latency=D, jitter=0), "timeout": L.tx("timeout", name="x", timeout=D),
+              "slow_close": L.tx("slow_close", name="x", delay=D), "bandwidth": L.tx("bandwidth", name="x", rate=1)}[ty]
+        src = [{"at": 1 * L.MS, "n": rng.range(1, 900)}, {"at": 3 * L.MS, "n": rng.range(1, 900)}]
+        if ty == "slow_close":
+            src.append({"at": 10 * L.MS, "close": True})
+        else:
+            src.append({"at": 3 * D * L.MS, "close": True})
+        at = rng.range(20, max(30, D - 30)) * L.MS + rng.range(1, 999)
+        base = {"dir": rng.choice(["upstream", "downstream"]), "chain": [tx], "src": src, "horizon": 3600 * 1000 * L.MS, "seed": 20000 + i}
+        withop = dict(base, ops=[{"at": at, "op": "update", "name": "x", "body": rng.choice(BAD_BODIES[ty])}])
+        pairs.append((base, withop))
+    flat = [c for p in pairs for c in p]
+    res = L.run_impl(ctx, flat, "c06_traffic")
+    fails, judged = [], 0
+    for k, (base, withop) in enumerate(pairs):
+        r0, r1 = res[2 * k], res[2 * k + 1]
+        if not r0 or not r1 or "crash" in r0 or r0.get("hang") or r1.get("hang"):
+            if r1 and "crash" in r1:
+                fails.append(("crash", "the process crashed on a rejected toxic update during traffic", {"kind": "failing-input", "case": withop, "observed": r1}))
+            continue
+        ops = r1.get("ops") or []
+        if not ops or not ops[0].get("err"):
+            continue                                    # the body was accepted after all: not a rejected request
+        judged += 1
+        if (r0["writes"], r0["closed"], r0["total"]) != (r1["writes"], r1["closed"], r1["total"]):
+            fails.append(("rejected-but-traffic-changed",
+                          "a toxic update answered with an error (%s) changed the treatment of a live connection: without the request the receiver saw "
+                          "%s, closed %s; with it %s, closed %s" % (ops[0]["err"][:60], json.dumps(r0["writes"])[:100], r0["closed"], json.dumps(r1["writes"])[:100], r1["closed"]),
+                          {"kind": "failing-input", "link": True, "case": withop, "observed": r1, "without_the_request": r0}))
+    return fails, {"traffic_pairs": len(pairs), "traffic_pairs_judged": judged}
+
+
 def run(ctx):
     return G.run_api_property(
         ctx, PID, gen_cases, oracle,
@@ -82,8 +132,10 @@ def run(ctx):
              "unknown proxies and toxics, unresolvable addresses; after every answer >= 400 GET /proxies must equal GET /proxies before; "
              "non-trivial = more than one request; distinct by JSON",
         assumptions=["the configuration shown by GET /proxies includes every toxic's attributes and toxicity, which are the fields the running "
-                     "stages read (same object); traffic treatment after a rejected update is additionally replayed on in-memory links",
-                     "exception by design: a 500 of update/populate/reset (listen address cannot be resolved or bound)"])
+                     "stages read (same object); treatment of traffic: links holding data or a deadline get a rejected toxic update and are compared, "
+                     "observation by observation, with the same link run without the request",
+                     "exception by design: a 500 of update/populate/reset (listen address cannot be resolved or bound)"],
+        side_findings=traffic_cases)
 
 
 def replay(ctx, path):
@@ -91,6 +143,16 @@ def replay(ctx, path):
     if rp.get("kind") != "failing-input":
         print("replay file names a broken obligation, not an input:", rp.get("what"))
         return 1
+    if rp.get("link"):
+        base = {k: v for k, v in rp["case"].items() if k != "ops"}
+        r0, r1 = L.run_impl(ctx, [base, rp["case"]], "c06_replay", procs=1)
+        print("without the request:", json.dumps({k: r0.get(k) for k in ("writes", "closed", "total")})[:600])
+        print("with the request:   ", json.dumps({k: r1.get(k) for k in ("writes", "closed", "total", "ops")})[:800])
+        if (r0["writes"], r0["closed"], r0["total"]) != (r1["writes"], r1["closed"], r1["total"]) and (r1.get("ops") or [{}])[0].get("err"):
+            print("VIOLATION property=%s replay=%s" % (PID, path))
+            return 1
+        print("replay passes on the current tree")
+        return 0
     r = A.run_impl(ctx, [rp["case"]], PID.lower() + "_replay", procs=1)[0]
     w = oracle(rp["case"], r)
     print("observed:", json.dumps(r)[:1500])
